@@ -19,8 +19,10 @@ import (
 
 // Delivery schedules. Every envelope any node sends is held by the fakenet policy and released by
 // one scheduler goroutine that owns all ordering decisions (PRNG of the case). Nothing is ever
-// dropped or duplicated: this check is about the result of ceremonies whose messages all arrive,
-// in whatever order.
+// dropped: this check is about the result of ceremonies whose messages all arrive, in whatever
+// order. One-way reliable-broadcast messages (/bcast/.../msg) may additionally be RE-DELIVERED
+// (byte-identical clones, see the dup* profiles): the real code carries explicit duplicate filters
+// for them, so retransmission is part of its network model.
 const (
 	modeEagerRandom   = iota // whenever something is pending, deliver a uniformly chosen envelope
 	modeEagerLIFO            // always the most recently sent envelope first
@@ -31,14 +33,50 @@ const (
 	modeClassPriority        // random strict priority between message classes (sig/msg of each id, p2p)
 	modeRecvPriority         // random strict priority between receivers: one node races ahead
 	modeSendPriority         // random strict priority between senders
+	// modeRedeliverTargeted: at one receiver B the round-1 broadcast of a laggard sender C is kept
+	// back; as soon as a later-round one-way message of some faster sender A was handled by B
+	// (B is still in round 1), A's round-1 broadcast is delivered to B a second time; then C's
+	// broadcast is released. Everything else is delivered in eager random order.
+	modeRedeliverTargeted
 	numModes
 )
+
+// Re-delivery profiles (overlay on every mode): when clones of already delivered one-way
+// broadcast messages are delivered again.
+const (
+	dupNone       = iota
+	dupImmediate  // right after the original
+	dupAfterLater // after a later-round message of the same sender was delivered to the same receiver
+	dupLate       // at random later points and while the network is idle
+	dupMixed      // all of the above
+	numDupProfiles
+)
+
+var dupNames = [...]string{"none", "immediate", "after-later-round", "late", "mixed"}
+
+// targetedHoldCap bounds how long the targeted mode keeps C's broadcast back (pacing only; a
+// one-way message held back trips no real-time timeout of the code under test).
+const targetedHoldCap = 10 * time.Second
+
+// dupRec is a delivered one-way envelope that may be delivered again.
+type dupRec struct {
+	env      *fakenet.Envelope
+	class    string
+	round    int
+	from, to int
+	times    int
+}
+
+type redoItem struct {
+	rec  *dupRec
+	kind string
+}
 
 // maxHold caps how long the scheduler keeps one envelope back (real time, pacing only).
 const maxHold = 800 * time.Millisecond
 
 var modeNames = [...]string{"eager-random", "eager-lifo", "batch-shuffle", "batch-reverse", "laggard-sender",
-	"laggard-receiver", "class-priority", "receiver-priority", "sender-priority"}
+	"laggard-receiver", "class-priority", "receiver-priority", "sender-priority", "targeted-redelivery"}
 
 type delivery struct {
 	Seq   int64  `json:"seq"`
@@ -58,6 +96,20 @@ type sched struct {
 	prio     map[string]int // class / node priority (scheduler goroutine only)
 	nodePrio []int
 
+	// re-delivery state (scheduler goroutine only)
+	dupProfile int
+	dupAll     bool // development aid: also re-deliver one-way p2p envelopes, not only /bcast/msg
+	dupBudget  int  // max re-deliveries per receiver
+	dupUsed    map[int]int
+	recs       []*dupRec
+	redo       []redoItem
+	classCache map[*fakenet.Envelope]string
+	tgtB, tgtC int
+	tgtA       int
+	tgtPhase   int // 0 = C's broadcast to B is kept back, 1 = released
+	tgtSince   time.Time
+	dupDone    atomic.Int64
+
 	sent atomic.Int64
 	done atomic.Int64
 	born sync.Map // *fakenet.Envelope -> time.Time of the send (hold-time cap)
@@ -72,17 +124,25 @@ type sched struct {
 	roundOverlap int // a later-round envelope delivered while an earlier-round envelope was pending
 	leftInFlight int
 	agedOut      int
+	dupStarted   int64
+	redeliv      map[string]int // kind -> count
+	tgtCompleted int
+	tgtAbandoned int
 	maxSeq       int64
 	maxPool      int
 	classes      map[string]int
 }
 
-func newSched(net *fakenet.Net, ids []peer.ID, rng *rand.Rand, mode int, patience time.Duration) *sched {
+func newSched(net *fakenet.Net, ids []peer.ID, rng *rand.Rand, mode int, patience time.Duration, dupProfile, dupBudget int, dupAll bool) *sched {
 	s := &sched{
 		net: net, idx: map[peer.ID]int{}, rng: rng, mode: mode, patience: patience,
 		prio: map[string]int{}, wake: make(chan struct{}, 1), stop: make(chan struct{}), fin: make(chan struct{}),
-		classes: map[string]int{},
+		classes: map[string]int{}, dupProfile: dupProfile, dupBudget: dupBudget, dupAll: dupAll, dupUsed: map[int]int{},
+		classCache: map[*fakenet.Envelope]string{}, redeliv: map[string]int{}, tgtA: -1,
 	}
+	// targeted mode: receiver B and laggard sender C (distinct); A is whoever is fast
+	pm := rng.Perm(len(ids))
+	s.tgtB, s.tgtC = pm[0], pm[1]
 	for i, id := range ids {
 		s.idx[id] = i
 	}
@@ -160,8 +220,24 @@ func roundOf(class string) int {
 	return 0
 }
 
+// class is classOf with a per-envelope cache (scheduler goroutine only).
+func (s *sched) class(e *fakenet.Envelope) string {
+	c, ok := s.classCache[e]
+	if !ok {
+		c = classOf(e)
+		s.classCache[e] = c
+	}
+
+	return c
+}
+
+// isRound1Msg: a first-round reliable-broadcast message (FROST round1/cast, pedersen node_pubkeys).
+func isRound1Msg(class string) bool { return strings.HasPrefix(class, "msg:") && roundOf(class) == 1 }
+
 func (s *sched) heldBack(e *fakenet.Envelope) bool {
 	switch s.mode {
+	case modeRedeliverTargeted:
+		return s.tgtPhase == 0 && s.idx[e.From] == s.tgtC && s.idx[e.To] == s.tgtB && isRound1Msg(s.class(e))
 	case modeLaggardSender:
 		return s.idx[e.From] == s.victim
 	case modeLaggardRecv:
@@ -200,6 +276,13 @@ func (s *sched) run() {
 		}
 		settled := func(d time.Duration) bool { return time.Since(lastChange) >= d }
 
+		if len(s.redo) > 0 {
+			it := s.redo[0]
+			s.redo = s.redo[1:]
+			s.deliverClone(it.rec, it.kind)
+
+			continue
+		}
 		if len(batch) > 0 {
 			e := batch[0]
 			batch = batch[1:]
@@ -207,7 +290,6 @@ func (s *sched) run() {
 
 			continue
 		}
-
 		pend := s.net.Pending()
 		s.mu.Lock()
 		if len(pend) > s.maxPool {
@@ -221,6 +303,16 @@ func (s *sched) run() {
 		var oldest *fakenet.Envelope
 		var oldestAge time.Duration
 		for _, e := range pend {
+			if s.mode == modeRedeliverTargeted && s.heldBack(e) {
+				// C's one-way broadcast to B: holding it trips no timeout; own, longer cap
+				if s.tgtSince.IsZero() {
+					s.tgtSince = time.Now()
+				} else if time.Since(s.tgtSince) > targetedHoldCap {
+					s.abandonTarget()
+				}
+
+				continue
+			}
 			if b, ok := s.born.Load(e); ok {
 				if age := time.Since(b.(time.Time)); age > oldestAge {
 					oldest, oldestAge = e, age
@@ -243,6 +335,15 @@ func (s *sched) run() {
 				elig = append(elig, e)
 			}
 		}
+		if len(elig) == 0 && s.mode == modeRedeliverTargeted {
+			if len(held) > 0 && settled(3*time.Second) {
+				s.abandonTarget() // nothing else moves and no faster sender showed up
+			} else {
+				s.idleDup()
+			}
+
+			continue
+		}
 		if len(elig) == 0 {
 			if len(held) > 0 && settled(5*s.settle+2*time.Millisecond) {
 				// nothing else moves: the laggard's envelopes are released (random order)
@@ -251,7 +352,13 @@ func (s *sched) run() {
 
 				continue
 			}
-			s.idle()
+			s.idleDup()
+
+			continue
+		}
+
+		if (s.dupProfile == dupLate || s.dupProfile == dupMixed) && len(s.recs) > 0 && s.rng.Intn(10) == 0 {
+			s.redo = append(s.redo, redoItem{s.recs[s.rng.Intn(len(s.recs))], "late"})
 
 			continue
 		}
@@ -259,6 +366,20 @@ func (s *sched) run() {
 		switch s.mode {
 		case modeEagerRandom, modeLaggardSender, modeLaggardRecv:
 			s.deliver(elig[s.rng.Intn(len(elig))])
+		case modeRedeliverTargeted:
+			e := elig[s.rng.Intn(len(elig))]
+			if s.tgtPhase == 0 && s.idx[e.To] == s.tgtB && roundOf(s.class(e)) > 1 {
+				// at B a sender's round-1 broadcast goes before its later-round messages, so that the
+				// later re-delivery of the round-1 broadcast is a genuine repeat
+				for _, p := range elig {
+					if p.From == e.From && p.To == e.To && isRound1Msg(s.class(p)) {
+						e = p
+
+						break
+					}
+				}
+			}
+			s.deliver(e)
 		case modeEagerLIFO:
 			s.deliver(elig[len(elig)-1])
 		case modeBatchShuffle, modeBatchReverse:
@@ -299,6 +420,27 @@ func (s *sched) run() {
 	}
 }
 
+// idleDup is idle() plus, for the late re-delivery profiles, an occasional repeat while the
+// network is quiet.
+func (s *sched) idleDup() {
+	if (s.dupProfile == dupLate || s.dupProfile == dupMixed) && len(s.recs) > 0 && s.rng.Intn(400) == 0 {
+		s.redo = append(s.redo, redoItem{s.recs[s.rng.Intn(len(s.recs))], "late-idle"})
+
+		return
+	}
+	s.idle()
+}
+
+func (s *sched) abandonTarget() {
+	if s.tgtPhase != 0 {
+		return
+	}
+	s.tgtPhase = 1
+	s.mu.Lock()
+	s.tgtAbandoned++
+	s.mu.Unlock()
+}
+
 func (s *sched) idle() {
 	t := time.NewTimer(150 * time.Microsecond)
 	select {
@@ -317,12 +459,14 @@ func (s *sched) deliver(e *fakenet.Envelope) {
 		return
 	}
 	s.born.Delete(e)
-	class := classOf(e)
+	class := s.class(e)
+	delete(s.classCache, e)
 	rd := roundOf(class)
 	overlap := false
+	pendAfter := s.net.Pending()
 	if rd > 0 {
-		for _, p := range s.net.Pending() {
-			if r := roundOf(classOf(p)); r > 0 && r < rd {
+		for _, p := range pendAfter {
+			if r := roundOf(s.class(p)); r > 0 && r < rd {
 				overlap = true
 
 				break
@@ -360,12 +504,92 @@ func (s *sched) deliver(e *fakenet.Envelope) {
 	case <-s.stop:
 	}
 	t.Stop()
+
+	// ---- re-delivery bookkeeping and triggers ----
+	from, to := s.idx[e.From], s.idx[e.To]
+	mixed := s.dupProfile == dupMixed
+	if (s.dupProfile == dupAfterLater || mixed) && rd > 1 {
+		for _, r := range s.recs {
+			if r.from == from && r.to == to && r.round > 0 && r.round < rd && r.times == 0 && s.rng.Intn(2) == 0 {
+				s.redo = append(s.redo, redoItem{r, "after-later-round"})
+			}
+		}
+	}
+	if s.mode == modeRedeliverTargeted && s.tgtPhase == 0 && to == s.tgtB && from != s.tgtC && rd > 1 && !e.Duplex {
+		// Is C's round-1 broadcast to B really still outstanding (B is in round 1)?
+		cHeld := false
+		for _, p := range pendAfter {
+			if s.heldBack(p) {
+				cHeld = true
+
+				break
+			}
+		}
+		if cHeld {
+			for _, r := range s.recs {
+				if r.from == from && r.to == to && isRound1Msg(r.class) {
+					if s.deliverClone(r, "targeted") {
+						s.tgtA = from
+						s.tgtPhase = 1 // C's broadcast may go now
+						s.mu.Lock()
+						s.tgtCompleted++
+						s.mu.Unlock()
+					}
+
+					break
+				}
+			}
+		}
+	}
+	if !e.Duplex && (strings.HasPrefix(class, "msg:") || s.dupAll) {
+		r := &dupRec{env: e, class: class, round: rd, from: from, to: to}
+		s.recs = append(s.recs, r)
+		if (s.dupProfile == dupImmediate || mixed) && s.rng.Intn(3) == 0 {
+			s.redo = append(s.redo, redoItem{r, "immediate"})
+		}
+	}
+}
+
+// deliverClone delivers a byte-identical copy of an already delivered one-way envelope again
+// (retransmission). Returns false when the receiver's re-delivery budget is used up.
+func (s *sched) deliverClone(r *dupRec, kind string) bool {
+	if s.dupUsed[r.to] >= s.dupBudget {
+		return false
+	}
+	s.dupUsed[r.to]++
+	r.times++
+	e := r.env.Clone()
+	s.mu.Lock()
+	s.dupStarted++
+	s.order = append(s.order, delivery{Seq: e.Seq, From: r.from, To: r.to, Class: r.class + "+dup(" + kind + ")"})
+	s.redeliv[kind]++
+	s.mu.Unlock()
+	ch := make(chan struct{})
+	go func() {
+		s.net.Deliver(e)
+		s.dupDone.Add(1)
+		close(ch)
+		s.poke()
+	}()
+	t := time.NewTimer(s.patience)
+	select {
+	case <-ch:
+	case <-t.C:
+	case <-s.stop:
+	}
+	t.Stop()
+
+	return true
 }
 
 // allDelivered reports whether every envelope sent so far was handed to its recipient and the
 // recipient's handler has returned.
 func (s *sched) allDelivered() bool {
-	return len(s.net.Pending()) == 0 && s.sent.Load() == s.done.Load()
+	s.mu.Lock()
+	dups := s.dupStarted
+	s.mu.Unlock()
+
+	return len(s.net.Pending()) == 0 && s.sent.Load() == s.done.Load() && dups == s.dupDone.Load()
 }
 
 // shutdown stops the scheduler and releases anything still held (duplex senders see EOF).
@@ -391,6 +615,13 @@ type schedStats struct {
 	AgedOut      int            `json:"released_by_hold_time_cap"`
 	MaxPool      int            `json:"max_pool"`
 	Classes      map[string]int `json:"classes"`
+	DupProfile   string         `json:"redelivery_profile"`
+	Redeliveries map[string]int `json:"redeliveries"`
+	RedelivTotal int            `json:"redeliveries_total"`
+	TargetB      int            `json:"targeted_receiver_B"`
+	TargetC      int            `json:"targeted_laggard_C"`
+	TgtCompleted int            `json:"targeted_pattern_completed"`
+	TgtAbandoned int            `json:"targeted_pattern_abandoned"`
 }
 
 func (s *sched) stats() schedStats {
@@ -401,8 +632,17 @@ func (s *sched) stats() schedStats {
 		cl[k] = v
 	}
 
+	rd := map[string]int{}
+	total := 0
+	for k, v := range s.redeliv {
+		rd[k] = v
+		total += v
+	}
+
 	return schedStats{Mode: modeNames[s.mode], Victim: s.victim, Sent: s.sent.Load(), Delivered: s.done.Load(),
-		Inversions: s.inversions, RoundOverlap: s.roundOverlap, LeftInFlight: s.leftInFlight, AgedOut: s.agedOut, MaxPool: s.maxPool, Classes: cl}
+		Inversions: s.inversions, RoundOverlap: s.roundOverlap, LeftInFlight: s.leftInFlight, AgedOut: s.agedOut, MaxPool: s.maxPool, Classes: cl,
+		DupProfile: dupNames[s.dupProfile], Redeliveries: rd, RedelivTotal: total, TargetB: s.tgtB, TargetC: s.tgtC,
+		TgtCompleted: s.tgtCompleted, TgtAbandoned: s.tgtAbandoned}
 }
 
 // orderHash identifies the schedule: the sequence of (from, to, class) deliveries.
